@@ -2819,6 +2819,25 @@ class LinearOperator(object):
         # Pad the index with empty indices
         index = index + tuple(_noop_index for _ in range(ndimension - len(index)))
 
+        # Validate and normalize int / integer-tensor indices the way torch does: more indices than dimensions or an
+        # entry outside [-size, size) is an error, and a negative entry counts from the end.
+        # (_getitem / _get_indices of structured operators do arithmetic on the entries and expect them in [0, size).)
+        if len(index) > ndimension:
+            raise IndexError(f"too many indices for LinearOperator of dimension {ndimension}")
+        normalized_index = []
+        for dim, idx in enumerate(index):
+            size = self.size(dim)
+            if isinstance(idx, int) and not isinstance(idx, bool):
+                if not -size <= idx < size:
+                    raise IndexError(f"index {idx} is out of bounds for dimension {dim} with size {size}")
+                idx = idx + size if idx < 0 else idx
+            elif torch.is_tensor(idx) and idx.dtype in (torch.int64, torch.int32, torch.int16, torch.int8) and idx.numel():
+                if idx.min() < -size or idx.max() >= size:
+                    raise IndexError(f"index is out of bounds for dimension {dim} with size {size}")
+                idx = torch.where(idx < 0, idx + size, idx)
+            normalized_index.append(idx)
+        index = tuple(normalized_index)
+
         # Make the index a tuple again
         *batch_indices, row_index, col_index = index
 
